@@ -1059,7 +1059,10 @@ fn macro_resolve() {
 }
 
 /// Stores the active #if blocks
-struct ConditionChain(Vec<ConditionBlock>);
+///
+/// The second value is the number of blocks that were open when the current file started
+/// These belong to the files that include it and can not be switched or closed from inside the file
+struct ConditionChain(Vec<ConditionBlock>, usize);
 
 /// An #if block that has not reached its #endif
 struct ConditionBlock {
@@ -1084,7 +1087,7 @@ enum ConditionState {
 
 impl ConditionChain {
     fn new() -> ConditionChain {
-        ConditionChain(vec![])
+        ConditionChain(vec![], 0)
     }
 
     fn push(&mut self, gate: ConditionState) {
@@ -1101,7 +1104,8 @@ impl ConditionChain {
         is_else: bool,
         location: SourceLocation,
     ) -> Result<(), PreprocessError> {
-        match self.0.last_mut() {
+        let blocks_of_file = &mut self.0[self.1..];
+        match blocks_of_file.last_mut() {
             Some(block) => {
                 // No branch can follow the #else branch
                 if block.seen_else {
@@ -1125,9 +1129,11 @@ impl ConditionChain {
     }
 
     fn pop(&mut self) -> Result<(), PreprocessError> {
-        match self.0.pop() {
-            Some(_) => Ok(()),
-            None => Err(PreprocessError::EndIfNotMatched),
+        if self.0.len() > self.1 {
+            self.0.pop();
+            Ok(())
+        } else {
+            Err(PreprocessError::EndIfNotMatched)
         }
     }
 
@@ -1343,6 +1349,10 @@ fn preprocess_included_file(
 
     let mut active_tokens: Vec<PreprocessToken> = Vec::new();
 
+    // The #if blocks of a file have to start and end inside the file
+    let outer_file_block_count = condition_chain.1;
+    condition_chain.1 = condition_chain.0.len();
+
     fn flush_normal(
         output_tokens: &mut Vec<PreprocessToken>,
         input_tokens: &mut Vec<PreprocessToken>,
@@ -1446,6 +1456,11 @@ fn preprocess_included_file(
         macros,
         condition_chain,
     )?;
+
+    if condition_chain.0.len() != condition_chain.1 {
+        return Err(PreprocessError::ConditionChainNotFinished);
+    }
+    condition_chain.1 = outer_file_block_count;
 
     Ok(())
 }
